@@ -22,8 +22,9 @@ Definition by_pos (tab : list line) (i : Z) : option line :=
   if (0 <=? i)%Z && (i <? n)%Z then nth_error tab (Z.to_nat i)
   else if (i <? 0)%Z && (- n <=? i)%Z then nth_error tab (Z.to_nat (n + i)) else None.
 
-(* one replaced line: row values by label, parallel / length_km by POSITION = label (the defect) *)
-Definition line_to_imp (tab : list line) (sn : Q) (idx : Z) : result imp :=
+(* the rule before "fix: replace_line_by_impedance takes parallel and length_km from the line's own row":
+   row values by label, parallel / length_km by POSITION = label *)
+Definition line_to_imp_old (tab : list line) (sn : Q) (idx : Z) : result imp :=
   match by_label tab idx with
   | None => Err "KeyError"
   | Some l =>
@@ -35,8 +36,8 @@ Definition line_to_imp (tab : list line) (sn : Q) (idx : Z) : result imp :=
             xft := qdiv (qdiv (qmul (x_km l) (len lp)) (par lp)) zni; isn := sn |}
     end
   end.
-(* what a maintainer would write (labels throughout) — the spec side uses it *)
-Definition line_to_imp_label (tab : list line) (sn : Q) (idx : Z) : result imp :=
+(* the repaired rule (:1237-1246): everything from the line's own row *)
+Definition line_to_imp (tab : list line) (sn : Q) (idx : Z) : result imp :=
   match by_label tab idx with
   | None => Err "KeyError"
   | Some l => let zni := qdiv (qmul (vn l) (vn l)) sn in
